@@ -228,7 +228,10 @@ NoDeliveryAcrossExplicit ==
 
 \* C03 (keeps-flowing half) and C14 (every message on a healthy link is delivered):
 \* only with fail_rate = 0.
-MustArriveBy(m) == m.sendStep + CeilDiv(IF KnownLat(m) THEN m.lat ELSE m.cfgMax, Tick) + 1
+\* The statement bounds the delay by the configured maximum plus one tick (not by the
+\* sampled latency): a message sent in step s is received by the end of step
+\* s + ceil(max / Tick) + 1.
+MustArriveBy(m) == m.sendStep + CeilDiv(m.cfgMax, Tick) + 1
 FlowsWhenNotPartitioned ==
     \A i \in Ids :
         LET m == msgs[i] IN
@@ -252,7 +255,10 @@ ReleasedArrive ==
     \A i \in Ids :
         LET m == msgs[i] IN
         (m.heldEver /\ m.relStep # 0 /\ ~m.unspec /\ ~m.doomed /\ ~m.explAtSend
-            /\ ~m.failAtSend /\ ~failOn /\ pstep > m.relStep + 1)
+            /\ ~m.failAtSend /\ ~failOn
+            \* the statement sets no deadline for a released message; allow a full
+            \* latency window after the release before calling it lost
+            /\ pstep > m.relStep + CeilDiv(m.cfgMax, Tick) + 2)
         => i \in ReceivedIds
 
 FifoOnRelease ==
